@@ -471,6 +471,8 @@ def run(chk):
     chk.guard(rule_r3, chk)
     chk.guard(rule_r4, chk)
     chk.guard(rule_r5, chk)
+    from .. import variants
+    chk.guard(variants.apply, chk, "C07-R6", [("irispie.simultaneous._simulate", "Inlay.simulate")])
     from .. import unused as _unused
     chk.guard(_unused.apply, chk, "C07-R91")
     from .. import args as _args
